@@ -87,13 +87,20 @@ Definition px_join (a b : str) : str :=
   else if is_empty a || ends_sl a then a ++ b
   else a ++ SL :: b.
 
+(* glob.escape (posix): every '*', '?', '[' becomes "[*]", "[?]", "[[]" *)
+Fixpoint px_escape (s : str) : str :=
+  match s with
+  | [] => []
+  | c :: r => if (c =? 42) || (c =? 63) || (c =? 91) then 91 :: c :: 93 :: px_escape r else c :: px_escape r
+  end.
+
 (* os.path.abspath with the given cwd *)
 Definition px_canon (cwd : str) (p : str) : str :=
   if starts_sl p then px_normpath p else px_normpath (px_join cwd p).
 
 (* ---- one scenario ---------------------------------------------------------------------------- *)
 Record ecase := mkcase {
-  c_translate : bool;  c_guard : bool;             (* read off editor.py by the harness (tie) *)
+  c_translate : bool;  c_guard : bool;  c_escape : bool;   (* read off editor.py by the harness (tie) *)
   c_cwd : path;
   c_files : list (path * str);                     (* canonical path -> bytes (ASCII) *)
   c_dirs : list path;
@@ -108,7 +115,7 @@ Record ecase := mkcase {
   o_keys : option (list path);                     (* keys of the yielded dict, in order *)
   o_trace : list (Z * path);                       (* (kind, canonical path) of each FS call *)
   o_final : list (path * str);                     (* every regular file afterwards *)
-  o_paths : list (str * (str * str * str * str))   (* p -> normpath, dirname, str(Path), abspath *)
+  o_paths : list (str * (str * str * str * (str * str)))   (* p -> normpath, dirname, str(Path), abspath, glob.escape *)
 }.
 
 Definition world_of (c : ecase) : world :=
@@ -119,8 +126,8 @@ Definition world_of (c : ecase) : world :=
           (* the table is keyed by the normalised pattern and holds normalised matches: spelling a
              pattern "./x" or "x" is the same question to glob, and matches are normalised by the code *)
           (fun pat => match lookup (px_normpath pat) (c_globs c) with Some l => l | None => [] end)
-          px_normpath px_dirname px_join px_ppath (px_canon (c_cwd c))
-          (c_translate c) (c_guard c).
+          px_normpath px_dirname px_join px_ppath (px_canon (c_cwd c)) px_escape
+          (c_translate c) (c_guard c) (c_escape c).
 
 Definition exn_code (e : eexn) : Z :=
   match e with EOSError => 1 | EValueError => 2 | EParseError => 3 | EBodyRaised => 4 | EOutOfFuel => 5 end.
@@ -136,8 +143,9 @@ Definition is_unlink (x : Z * path) : bool := fst x =? 2.
 
 (* set(texts) - set(files) is iterated in hash order: the unlink calls are compared as a set *)
 Definition sub_list (a b : list (Z * path)) : bool := forallb (fun x => existsb (zp_eqb x) b) a.
+Definition blank_unlink (x : Z * path) : Z * path := if is_unlink x then (2, []) else x.
 Definition trace_eqb (a b : list (Z * path)) : bool :=
-  list_eqb zp_eqb (filter (fun x => negb (is_unlink x)) a) (filter (fun x => negb (is_unlink x)) b)
+  list_eqb zp_eqb (map blank_unlink a) (map blank_unlink b)      (* same calls at the same positions *)
   && let ua := filter is_unlink a in let ub := filter is_unlink b in
      (Nat.eqb (length ua) (length ub)) && sub_list ua ub && sub_list ub ua.
 
@@ -146,9 +154,10 @@ Definition files_eqb (a b : list (path * str)) : bool :=
   && forallb (fun kv => match lookup (fst kv) b with Some s => str_eqb s (snd kv) | None => false end) a.
 
 Definition check_paths (c : ecase) : bool :=
-  forallb (fun x => let '(p, (n, d, pp, ab)) := x in
+  forallb (fun x => let '(p, (n, d, pp, (ab, es))) := x in
                     str_eqb (px_normpath p) n && str_eqb (px_dirname p) d
-                    && str_eqb (px_ppath p) pp && str_eqb (px_canon (c_cwd c) p) ab) (o_paths c).
+                    && str_eqb (px_ppath p) pp && str_eqb (px_canon (c_cwd c) p) ab
+                    && str_eqb (px_escape p) es) (o_paths c).
 
 Definition fuel_of (c : ecase) : nat := S (S (length (c_files c))).
 
@@ -194,7 +203,7 @@ Definition zs (x : string) : str := map (fun a => Z.of_nat (nat_of_ascii a)) (li
 Definition CRLF : str := [CR; NL].
 Definition ex_case (translate guard : bool) : ecase :=
   let tm := zs "A" ++ (if translate then [NL] else CRLF) in
-  mkcase translate guard (zs "/t")
+  mkcase translate guard true (zs "/t")
          [(zs "/t/m", zs "A" ++ CRLF); (zs "/t/a", zs "B" ++ [NL]); (zs "/t/b", zs "C" ++ [NL])]
          [zs "/t"]
          [(tm, [zs "a"; zs "b"; zs "m"]); (zs "B" ++ [NL], [zs "b"])]
@@ -218,3 +227,11 @@ Definition ex_files' (t g : bool) : list (path * model (ex_W t g)) :=
 Definition ex_out (t g : bool) := edit_file_recursive (ex_W t g) ex_fuel ex_fs ex_root (ex_body t g).
 Definition ex_fs' (t g : bool) : fsys := fst (fst (ex_out t g)).
 Definition ex_tr (t g : bool) : list op := snd (fst (ex_out t g)).
+
+(* same world, another body: a is removed and re-added under its absolute spelling "/t/a" (re-keying),
+   b is removed *)
+Definition ex_body2 : body_t (ex_W false true) :=
+  fun _ => Some [(zs "m", zs "A" ++ CRLF); (zs "/t/a", zs "Q" ++ [NL])].
+Definition ex_files2' : list (path * model (ex_W false true)) :=
+  match ex_body2 (ex_files false true) with Some x => x | None => [] end.
+Definition ex_out2 := edit_file_recursive (ex_W false true) ex_fuel ex_fs ex_root ex_body2.
